@@ -23,7 +23,10 @@ def load_corpus(pid):
 
 def classify(out):
     """Outcome class of an output token line."""
-    h = out.split(" ", 1)[0] if out else ""
+    t = out.split(" ") if out else [""]
+    h = t[0]
+    if h == "1" and len(t) >= 3:
+        return "err(%s,%s)" % (t[1], t[2])
     return {"0": "ok", "1": "err", "2": "PANIC", "3": "err.other"}.get(h, "val")
 
 
@@ -55,17 +58,34 @@ def run(mod, tier, seed, replay=None):
     impl = run_parallel(os.path.join(BIN, "fn"), lines)
     model = run_parallel(os.path.join(BIN, "model_driver"), lines)
     # 3. oracle on the implementation's outputs
-    oracle_ix = [i for i, c in enumerate(cases) if c.op in mod.ORACLES]
-    olines = ["%s | %s" % (cases[i].line(mod.ORACLES[cases[i].op]), impl[i]) for i in oracle_ix]
+    def oracles_of(op):
+        o = mod.ORACLES.get(op, [])
+        return o if isinstance(o, (list, tuple)) else [o]
+    panic_bad = getattr(mod, "PANIC_IS_VIOLATION", False)
+    oracle_ix = [(i, oo) for i, c in enumerate(cases) for oo in oracles_of(c.op)]
+    olines = ["%s | %s" % (cases[i].line(oo), impl[i]) for i, oo in oracle_ix]
     overd = run_parallel(os.path.join(BIN, "model_driver"), olines) if olines else []
-    verdict = {i: v for i, v in zip(oracle_ix, overd)}
+    verdict = {}
+    for (i, oo), v in zip(oracle_ix, overd):
+        # keep the first failing verdict per case, tagged with the oracle that produced it
+        if v.startswith("0"):
+            verdict.setdefault(i, "0 %d %s" % (oo, v[2:]))
+        elif i not in verdict:
+            verdict[i] = v
+    if panic_bad:
+        for i in range(len(cases)):
+            if impl[i] == "2":
+                verdict[i] = "0 0 panic"
 
     def impl_fails(c):
         o = run_parallel(os.path.join(BIN, "fn"), [c.line()])[0]
-        if c.op not in mod.ORACLES:
-            return False
-        v = run_parallel(os.path.join(BIN, "model_driver"), ["%s | %s" % (c.line(mod.ORACLES[c.op]), o)])[0]
-        return v.startswith("0")
+        if panic_bad and o == "2":
+            return True
+        for oo in oracles_of(c.op):
+            v = run_parallel(os.path.join(BIN, "model_driver"), ["%s | %s" % (c.line(oo), o)])[0]
+            if v.startswith("0"):
+                return True
+        return False
 
     # group oracle failures by (op, clause)
     groups = collections.defaultdict(list)
@@ -80,7 +100,7 @@ def run(mod, tier, seed, replay=None):
         for i in idxs:
             c = cases[i]
             sig = {"kind": "oracle", "op": op, "verdict": v, "ints": c.ints, "bs": [list(b) for b in c.bs],
-                   "impl": impl[i]}
+                   "impl": impl[i], "model": model[i]}
             from common import match_known
             k = match_known(rep.known, pid, sig)
             if k is not None:
@@ -95,7 +115,7 @@ def run(mod, tier, seed, replay=None):
             o = run_parallel(os.path.join(BIN, "fn"), [c.line()])[0]
             m = run_parallel(os.path.join(BIN, "model_driver"), [c.line()])[0]
             sig = {"kind": "oracle", "op": op, "verdict": v}
-            rep.violation(sig, {"what": "property oracle %d rejects the implementation's result (verdict %s)" % (mod.ORACLES[op], v),
+            rep.violation(sig, {"what": "property oracle rejects the implementation's result (verdict: 0 <oracle op> <clause> = %s)" % v,
                                 "cases": [c.to_json()], "case_line": c.line(), "impl_output": o, "model_output": m,
                                 "occurrences": len(pending)}, found_input=True)
     # mismatches model vs impl that no oracle failure explains
@@ -165,5 +185,6 @@ def run(mod, tier, seed, replay=None):
 def _known(rep, pid, c, op, v):
     from common import match_known
     o = run_parallel(os.path.join(BIN, "fn"), [c.line()])[0]
-    sig = {"kind": "oracle", "op": op, "verdict": v, "ints": c.ints, "bs": [list(b) for b in c.bs], "impl": o}
+    m = run_parallel(os.path.join(BIN, "model_driver"), [c.line()])[0]
+    sig = {"kind": "oracle", "op": op, "verdict": v, "ints": c.ints, "bs": [list(b) for b in c.bs], "impl": o, "model": m}
     return match_known(rep.known, pid, sig) is not None
